@@ -231,7 +231,7 @@ def run_shard(shard: Dict[str, Any]) -> Acc:
         acc.hist("class", cls)
         acc.hist("nesting_depth", st["depth"])
         flags: Dict[str, Any] = {}
-        common.guarded(acc, check_program, prog, acc, flags)
+        common.guarded(acc, check_program, prog, acc, flags, case={"program": prog})
         nontrivial = st["depth"] >= 2 or bool(flags.get("branching"))
         acc.case(bp.phash(prog), nontrivial, sample=prog if i < 40 else None)
     return acc
